@@ -1918,27 +1918,46 @@ pub fn run_plan(plan: &Plan, delays: bool) -> History {
 /// (The number is a constant of the channel, not part of the statement.) None = no give-up
 /// within 64 attempts.
 pub fn calibrate_retry_budget() -> Option<u32> {
-    let plan = Plan {
-        seed: 0,
-        case: 0,
-        focus: Focus::Items,
-        mode: Mode::Sequential,
-        flavour: Flavour::Exec,
-        cap: 4,
-        senders: vec![vec![SOp::Send]],
-        flushers: vec![],
-        watchers: vec![],
-        proc: (0..64).map(|_| Step { yields: 0, slow_us: 0, out: Outcome::Retry(Rem::All) }).collect(),
-        drop_after_polls: None,
-        hook: HookProfile::default(),
-    };
-    let h = run_sequential(&plan);
-    let attempts = h.batches.len() as u32;
-    if h.stuck.is_some() || attempts == 0 || attempts >= 64 {
-        None
-    } else {
-        Some(attempts - 1)
+    // several batch sizes, the largest count wins: a budget that depends on the size of the
+    // remainder is not a budget
+    let mut best: Option<u32> = None;
+    for n in [1usize, 2, 3, 5] {
+        let plan = Plan {
+            seed: 0,
+            case: n as u64,
+            focus: Focus::Items,
+            mode: Mode::Sequential,
+            flavour: Flavour::Exec,
+            cap: 8,
+            senders: vec![vec![SOp::Send; n]],
+            flushers: vec![],
+            watchers: vec![],
+            proc: (0..64).map(|_| Step { yields: 0, slow_us: 0, out: Outcome::Retry(Rem::All) }).collect(),
+            drop_after_polls: None,
+            hook: HookProfile::default(),
+        };
+        let h = run_sequential(&plan);
+        // attempts of the longest chain
+        let mut longest = 0u32;
+        let mut cur = 0u32;
+        let mut prev: Option<&Vec<Id>> = None;
+        for b in &h.batches {
+            if prev == Some(&b.items) {
+                cur += 1;
+            } else {
+                cur = 1;
+            }
+            longest = longest.max(cur);
+            prev = Some(&b.items);
+        }
+        if h.stuck.is_some() || longest >= 60 {
+            return None;
+        }
+        if longest > 0 {
+            best = Some(best.unwrap_or(0).max(longest - 1));
+        }
     }
+    best
 }
 
 pub struct Attempts {
